@@ -505,6 +505,33 @@ Proof.
   repeat split; try (intro H; apply Ha; assumption); try (intro H; apply He; assumption).
 Qed.
 
+(* whatever the genesis time of the restart, a proposal waiting for enactment (or still in voting) is back
+   in its queue after the re-import *)
+Lemma reimport_requeues_at_any_genesis_time : forall now s p, In p (proposals s) ->
+  (p_result p = Enactment -> In (p_id p) (enact_q (reimport_props true now s))) /\
+  (p_result p = Pending -> In (p_id p) (active_q (reimport_props true now s))).
+Proof.
+  intros now [ps a e n] p Hin. unfold reimport_props, import_props, export_props; cbn [fst snd proposals enact_q active_q] in *.
+  split; intro Hr; apply in_map; apply filter_In; (split; [assumption|]).
+  - unfold in_enactment. rewrite Hr. reflexivity.
+  - unfold in_voting. rewrite Hr. reflexivity.
+Qed.
+
+(* the time-gated variant strands it when the chain is restarted after the enactment end: the original
+   chain applies the proposal at its next block, the re-imported chain never does *)
+Lemma timegated_rebuild_strands_enactment :
+  exists s now ts, map p_result (proposals (run_blocks (fun _ => Passed) s ts)) = [Passed] /\
+    (forall ts', map p_result (proposals (run_blocks (fun _ => Passed) (import_props_timegated now (export_props s)) ts')) = [Enactment]) /\
+    map p_result (proposals (run_blocks (fun _ => Passed) (reimport_props true now s) ts)) = [Passed].
+Proof.
+  exists (mkProps [mkProp 1 Enactment 600 900] [] [1] 2), 1000, [1005].
+  split; [vm_compute; reflexivity|]. split; [|vm_compute; reflexivity].
+  intro ts'. assert (H : import_props_timegated 1000 (export_props (mkProps [mkProp 1 Enactment 600 900] [] [1] 2))
+                         = mkProps [mkProp 1 Enactment 600 900] [] [] 2) by (vm_compute; reflexivity).
+  rewrite H. unfold run_blocks. induction ts' as [|t ts' IH]; [reflexivity|]. cbn [fold_left].
+  rewrite end_block_empty_queues by reflexivity. exact IH.
+Qed.
+
 (* ================================================================ 2c. multistaking *)
 
 Lemma roundtrip_ms_iff : forall s, reimport_ms false s = s <-> last_pool s = 0 /\ last_undel s = 0 /\ delegators s = [] /\ compound s = [].
@@ -711,7 +738,7 @@ Qed.
 
 Definition snap0 : snap := mkSnap [] [] [] 1 [] [] [] 1 (mkMs 0 0 [] [] 0 0) [] [] 0 0 0 [] 0.
 Definition model_case (pop : list (string * string)) : c12_case :=
-  mkCase RImported false pop (predicted_diffs pop) [] [] snap0 snap0.
+  mkCase RImported false pop (predicted_diffs pop) [] [] [] snap0 snap0.
 
 Lemma predicted_diffs_nil : forall pop,
   (forall pc, In pc pop -> match status_of (fst pc) (snd pc) with SLost => False | _ => True end) -> predicted_diffs pop = [].
@@ -731,7 +758,7 @@ Proof. intros pop H. unfold case_clauses, model_case; cbn. rewrite predicted_dif
 Lemma chk_flags_lost : forall pop store name, In (store, name) pop -> status_of store name = SLost ->
   In (diff_clause ("lost"%string, store, name)) (case_clauses (model_case pop)).
 Proof.
-  intros pop store name Hin Hs. unfold case_clauses, model_case; cbn [cs_status cs_version_panic cs_diffs cs_export2 cs_probes].
+  intros pop store name Hin Hs. unfold case_clauses, model_case; cbn [cs_status cs_version_panic cs_diffs cs_export2 cs_probes cs_sched_probes].
   apply in_or_app; right. apply in_or_app; left.
   apply in_map. unfold predicted_diffs. apply in_flat_map. exists (store, name). split; [assumption|].
   cbn. rewrite Hs. left; reflexivity.
